@@ -522,6 +522,11 @@ func (db *MultiBucketBackend) deleteObjectLocked(bucketName, objectName string) 
 		return err
 	}
 
+	// Directories only exist to hold objects; once the last object below one
+	// is gone it must not linger as a common prefix or keep the bucket from
+	// being deleted:
+	removeEmptyDirs(db.bucketFs, bucketName, path.Dir(fullPath))
+
 	if err := db.metaStore.deleteMeta(db.metaStore.metaPath(bucketName, objectName)); err != nil {
 		return err
 	}
